@@ -1896,6 +1896,27 @@ bool DGXMLScanner::scanStartTagNS(bool& gotData)
         }
     }
 
+    //  Namespace declarations the DTD supplies as attribute defaults have to be
+    //  in the prefix map before any name of this tag is resolved (the ones
+    //  written in the tag were added while scanning and take precedence).
+    if (fDoNamespaces && elemDecl->hasAttDefs())
+    {
+        XMLAttDefList& attDefList = elemDecl->getAttDefList();
+        for (XMLSize_t i = 0; i < attDefList.getAttDefCount(); i++)
+        {
+            const XMLAttDef& curDef = attDefList.getAttDef(i);
+            const XMLAttDef::DefAttTypes defType = curDef.getDefaultType();
+            if ((defType == XMLAttDef::Default) || (defType == XMLAttDef::Fixed))
+            {
+                const XMLCh* rawPtr = curDef.getFullName();
+                if (!XMLString::compareNString(rawPtr, XMLUni::fgXMLNSColonString, 6))
+                    updateNSMap(XMLUni::fgXMLNSString, rawPtr + 6, curDef.getValue());
+                else if (XMLString::equals(rawPtr, XMLUni::fgXMLNSString))
+                    updateNSMap(XMLUni::fgZeroLenString, XMLUni::fgZeroLenString, curDef.getValue());
+            }
+        }
+    }
+
     //  Make an initial pass through the list and find any xmlns attributes.
     if (attCount)
       scanAttrListforNameSpaces(fAttrList, attCount, elemDecl);
